@@ -9,11 +9,13 @@ def execFacts : ExecFacts :=
     compile := ["gta", "cfg", "main-last"],
     importSrc := ["once", "rdir-check", "rdir-set", "gta", "cfg", "register", "root", "gen", "globals", "main-last", "init"] }
 
-/-- fingerprints (extract/common FuncHash) of the functions Model/VarInit.lean was transcribed from -/
+/-- fingerprints (extract/common FuncHash) of the functions Model/VarInit.lean was transcribed from
+    (`genGlobalVarDecl`: as repaired for F15 — the scan restarts after every append; before the
+    repair the fingerprint was bed06c905a7effe9) -/
 def sourceHashes : List (String × String) :=
   [("getVars", "ba362aea20fadd90"),
    ("genGlobalVars", "28ae47950487a25c"),
-   ("genGlobalVarDecl", "bed06c905a7effe9"),
+   ("genGlobalVarDecl", "af3f777c417db75e"),
    ("getVarDependencies", "45e633ad779f638c"),
    ("equalNodes", "5eb72e9c34fe6729")]
 
